@@ -83,6 +83,10 @@ def worker(job):
     if isinstance(res, Rejected):
         problems.append(("rejected", "operands with equal type sets were rejected: %s" % res.exc, None))
         return dict(cfg=cfg, problems=problems)
+    # the operation must not modify its operands (no aliasing of the stored blocks)
+    for name, obj, blocks0 in (("left", a, ab), ("right", b, bb)):
+        if set(obj.keys()) != set(types) or any(not same_elems(obj[t], blocks0[t]) for t in types if t in obj):
+            problems.append(("mutation", "the %s operand was modified by the operation" % name, None))
     if op == "eq":
         pairs = [(x, y) for tag, x, y, site in [tr for tr in w.trace if tr[0] == "allclose"]]
         want = {t: (a[t], b[t]) for t in types}
